@@ -224,7 +224,13 @@ pub fn fishers_exact(
                     return Ok(p_lower + 1.0 - dist.cdf(guess - 1));
                 }
 
-                let p_upper = 1.0 - dist.cdf(table[0] - 1);
+                // P(X >= a); for a = 0 (possible when the mode is 0) this is the whole mass, and
+                // `table[0] - 1` would underflow
+                let p_upper = if table[0] == 0 {
+                    1.0
+                } else {
+                    1.0 - dist.cdf(table[0] - 1)
+                };
                 if dist.pmf(0) > p_exact / EPSILON {
                     return Ok(p_upper);
                 }
